@@ -1,7 +1,7 @@
 (* C01 — Two endpoints built on the library interoperate, even across transport loss.
    Statements only.  Nothing else may be added to this file. *)
 From MQ Require Import Base.Prelude Alloc.Alloc Alloc.AllocProofs Framing.Framing Framing.FramingProofs Conn.Types Conn.ConnRecord Conn.Step
-                       Corr.ConnTrace Conn.Scope Conn.Session Conn.IdsQuota Conn.Own Conn.OwnFrame Conn.OwnStep Conn.Run Conn.PairQos Conn.PairQos0 Conn.PairQos5 Conn.PairSeq Conn.PairSeq5 Conn.PairConc Conn.PairBi Conn.PairConc5 Conn.PairBi5 Conn.PairHandshake5 Conn.PairHandshake311 Conn.PairConcIds Conn.PairConcIds5 Conn.PairManual Conn.PairManual5 Conn.PairManualSeq Conn.PairManualSeq5 Conn.PairHandshakeSeq Conn.SessInv Conn.PairLoss Conn.PairLossAcc Conn.PairLossS Conn.PairHandshakeP.
+                       Corr.ConnTrace Conn.Scope Conn.Session Conn.IdsQuota Conn.Own Conn.OwnFrame Conn.OwnStep Conn.Run Conn.PairQos Conn.PairQos0 Conn.PairQos5 Conn.PairSeq Conn.PairSeq5 Conn.PairConc Conn.PairBi Conn.PairConc5 Conn.PairBi5 Conn.PairHandshake5 Conn.PairHandshake311 Conn.PairConcIds Conn.PairConcIds5 Conn.PairBiIds Conn.PairBiIds5 Conn.PairQuiescence Conn.PairManual Conn.PairManual5 Conn.PairManualSeq Conn.PairManualSeq5 Conn.PairHandshakeSeq Conn.SessInv Conn.PairLoss Conn.PairLossAcc Conn.PairLossS Conn.PairHandshakeP.
 
 (* what the pair property rests on, each proved for ALL states of one endpoint:
    (i) delivery in any fragmentation is the same byte stream (C09) *)
@@ -342,6 +342,52 @@ Theorem C01_fresh_v311_all_identifiers_released : forall gA gB cn ca l,
     forall y, is_used (cs s2) y = false.
 Proof. exact fresh_v311_all_identifiers_released. Qed.
 Print Assumptions C01_fresh_v311_all_identifiers_released.
+
+(* ... BOTH DIRECTIONS (Conn/PairBiIds.v, PairBiIds5.v): [U] in both one-way views; an action is an action of one view and in the
+   other view changes neither the acting endpoint's allocator nor that view's packets in flight *)
+Theorem C01_pair_two_way_all_identifiers_released : forall gA gB l s,
+  inv2 gA gB s -> U2 s -> Forall good_act2 l ->
+  exists s1 s2, run_sched2 gA gB s l = Some s1 /\ run_sched2 gA gB s1 (drain2 (measure2 s1)) = Some s2 /\
+                qab s2 = [] /\ qba s2 = [] /\ delB s2 = pubA s1 /\ delA s2 = pubB s1 /\
+                (forall y, is_used (ea s2) y = false) /\ (forall y, is_used (eb s2) y = false).
+Proof. exact two_way_all_identifiers_released. Qed.
+Print Assumptions C01_pair_two_way_all_identifiers_released.
+
+Theorem C01_pair_two_way_v5_quiescence : forall gA gB l s,
+  inv25 gA gB s -> U2 s -> Forall good_act25 l ->
+  exists s1 s2, run_sched25 gA gB s l = Some s1 /\ run_sched25 gA gB s1 (drain2 (measure2 s1)) = Some s2 /\
+                qab s2 = [] /\ qba s2 = [] /\ delB s2 = pubA s1 /\ delA s2 = pubB s1 /\
+                vacancy (ea s2) = c_send_max (ea s2) /\ vacancy (eb s2) = c_send_max (eb s2) /\
+                c_publish_recv (ea s2) = [] /\ c_publish_recv (eb s2) = [] /\
+                (forall y, is_used (ea s2) y = false) /\ (forall y, is_used (eb s2) y = false).
+Proof. exact two_way5_quiescence. Qed.
+Print Assumptions C01_pair_two_way_v5_quiescence.
+
+(* THE WHOLE QUIESCENCE CLAUSE OF C01 ON INTACT LINKS, END TO END (Conn/PairQuiescence.v): two freshly constructed v5.0 endpoints,
+   any Clean Start handshake, any schedule of publications by either side and deliveries on either link, then the drain:
+   exactly-once delivery both ways, both Receive Maximum accounts full, nothing outstanding, NO identifier in use *)
+Theorem C01_fresh_v5_complete_quiescence : forall gA gB cn ca l,
+  1 <= g_idmax gA -> 1 <= g_idmax gB -> role_client_ok gA = true -> role_server_ok gB = true ->
+  k_type cn = T_CONNECT -> k_ver cn = V50 -> k_flag cn = true -> k_tam cn = None -> k_size cn <= MQTT_PACKET_SIZE_NO_LIMIT ->
+  k_type ca = T_CONNACK -> k_ver ca = V50 -> k_rc ca = 0 -> k_flag ca = false -> k_tam ca = None -> k_rm ca <> Some 0 -> k_mps ca <> Some 0 ->
+  k_size ca <= limit_after (k_mps cn) MQTT_PACKET_SIZE_NO_LIMIT ->
+  2 + g_idw gA <= limit_after (k_mps ca) MQTT_PACKET_SIZE_NO_LIMIT -> 2 + g_idw gB <= limit_after (k_mps cn) MQTT_PACKET_SIZE_NO_LIMIT ->
+  Forall good_act25 l ->
+  let A0 := set_auto_pub (conn_new gA V50) true in
+  let B0 := set_auto_pub (conn_new gB V50) true in
+  exists A1 e1 B1 e2 B2 e3 A2 e4 s1 s2,
+    step gA A0 (OSend cn) = Ok (A1, e1, []) /\ deliver gB B0 cn = Ok (B1, e2) /\
+    step gB B1 (OSend ca) = Ok (B2, e3, []) /\ deliver gA A1 ca = Ok (A2, e4) /\
+    errors e1 = [] /\ errors e2 = [] /\ errors e3 = [] /\ errors e4 = [] /\
+    run_sched25 gA gB (mkBi A2 B2 [] [] [] [] [] []) l = Some s1 /\
+    run_sched25 gA gB s1 (drain2 (measure2 s1)) = Some s2 /\
+    (* the quiescent state *)
+    qab s2 = [] /\ qba s2 = [] /\ delB s2 = pubA s1 /\ delA s2 = pubB s1 /\
+    vacancy (ea s2) = c_send_max (ea s2) /\ vacancy (eb s2) = c_send_max (eb s2) /\
+    c_publish_recv (ea s2) = [] /\ c_publish_recv (eb s2) = [] /\
+    (forall y, is_used (ea s2) y = false) /\ (forall y, is_used (eb s2) y = false).
+Proof. exact fresh_v5_complete_quiescence. Qed.
+Print Assumptions C01_fresh_v5_complete_quiescence.
 
 (* MANUAL RESPONSES (Conn/PairManual.v; auto_pub_response off, v3.1.1): the library requests nothing by itself; the
    applications send PUBACK / PUBREC / PUBREL / PUBCOMP through the ordinary send call.  From every admissible pair of
